@@ -33,3 +33,28 @@ package tmconsensus
 //@ lemma[C18] below-minority-cannot-block: forall n mathint, maj mathint, mn mathint, x mathint ::
 //@     n > 0 && IsMaj(n, maj) && IsMin(n, mn) && 0 <= x && x < mn ==> n - x >= maj
 //@ lemma[C18] min-le-maj: forall n mathint, maj mathint, mn mathint :: n > 0 && IsMaj(n, maj) && IsMin(n, mn) ==> mn <= maj
+
+// ---- round views ----
+
+//@ func VersionedRoundView.Clone
+//@   property C11
+//@   ensures scalars: result.Height == v.Height && result.Round == v.Round && result.Version == v.Version &&
+//@       result.PrevoteVersion == v.PrevoteVersion && result.PrecommitVersion == v.PrecommitVersion
+//@   ensures valset: result.ValidatorSet == v.ValidatorSet
+//@   ensures nph: len(result.ProposedHeaders) == len(v.ProposedHeaders)
+//@   modifies nothing
+
+//@ func RoundView.Clone
+//@   property C11
+//@   ensures scalars: result.Height == v.Height && result.Round == v.Round
+//@   ensures valset: result.ValidatorSet == v.ValidatorSet
+//@   ensures nph: len(result.ProposedHeaders) == len(v.ProposedHeaders)
+//@   modifies nothing
+
+//@ func CommitProof.Clone
+//@   property C11
+//@   ensures scalars: result.Round == p.Round && result.PubKeyHash == p.PubKeyHash
+//@   ensures fresh-map: fresh(result.Proofs)
+//@   ensures same-keys: dom(result.Proofs) == dom(p.Proofs)
+//@   modifies nothing
+//@   loop 1 invariant fresh(cloneProofs) && (forall h string :: (h in cloneProofs) == visited(1)[h]) && (forall h string :: visited(1)[h] ==> h in p.Proofs)
